@@ -393,8 +393,15 @@ func (ex *Exec) applyContract(st *State, fn *ssa.Function, c *Contract, args []V
 		ex.oblige(st, "requires", name, append([]string{"C20"}, cl.Props...), t, cl.Text)
 		st.assume(t)
 	}
-	// 2. havoc what the callee may modify
+	// 2. havoc what the callee may modify. A frame clause that is not part of this property's proof is not
+	// assumed: everything is havocked instead.
 	for _, cl := range c.byKind("modifies") {
+		if !relevant(cl, ex.prop) {
+			for i := range comps {
+				st.abs[comps[i].Name] = Fresh("h."+comps[i].Name, comps[i].arraySort())
+			}
+			continue
+		}
 		for _, m := range cl.Mods {
 			tgt := ctx.eval(m)
 			cc, ok := tgt.(CComp)
@@ -437,7 +444,13 @@ func (ex *Exec) applyContract(st *State, fn *ssa.Function, c *Contract, args []V
 			errIdx = i
 		}
 	}
-	emits, calls := c.byKind("emits"), c.byKind("calls")
+	emits, calls := relevantClauses(c.byKind("emits"), ex.prop), relevantClauses(c.byKind("calls"), ex.prop)
+	if len(emits) < len(c.byKind("emits")) {
+		st.evTaint = true
+	}
+	if len(calls) < len(c.byKind("calls")) {
+		st.callTaint = true
+	}
 	branches := []*State{st}
 	var succ []bool
 	if errIdx >= 0 && (len(emits) > 0 || len(calls) > 0) {
@@ -487,6 +500,9 @@ func (ex *Exec) applyContract(st *State, fn *ssa.Function, c *Contract, args []V
 			bs.ext = Fresh("ext", "Ext")
 		}
 		for _, cl := range c.byKind("ensures") {
+			if !relevant(cl, ex.prop) {
+				continue
+			}
 			t, err := ectx.EvalBool(cl.E)
 			if err != nil {
 				ex.oblige(bs, "binding", c.Key+"#binding", nil, TFalse, fmt.Sprintf("ensures[%s]: %v", cl.Label, err))
@@ -574,4 +590,14 @@ func (ex *Exec) evalRecList(ctx *EvalCtx, e *Expr) (recs []Rec, err error) {
 		recs = append(recs, r)
 	}
 	return recs, nil
+}
+
+func relevantClauses(cs []*Clause, prop string) []*Clause {
+	var out []*Clause
+	for _, c := range cs {
+		if relevant(c, prop) {
+			out = append(out, c)
+		}
+	}
+	return out
 }
